@@ -43,12 +43,20 @@ def make_cases(rng, tier, n):
             ops.append(("write", d, "g:1:5"))        # a file where a directory is expected
             chosen[d] = "file_in_way_dir"
             stats["state_file_in_way_dir"] = stats.get("state_file_in_way_dir", 0) + 1
-        if rng.random() < 0.2:
+        if rng.random() < 0.3:
             p, fl, sp = rng.choice(arts)
-            if "d" in fl:
-                ops.append(("rm", p))
-                ops.append(("write", p, "g:2:6"))        # a file where the directory artifact should be
-                chosen[p] = "file_in_way_art"
+            how = rng.choice(["file", "dangling", "foreign", "fifo"])
+            ops.append(("rm", p))
+            if how == "file":
+                ops.append(("write", p, "g:2:6"))        # a file where the artifact should be
+            elif how == "dangling":
+                ops.append(("flink", p, 0))             # e.g. a link to an unmounted disk
+            elif how == "foreign":
+                ops.append(("flink", p, 1))
+            else:
+                ops.append(("fifo", p))
+            chosen[p] = "art_root_" + how
+            stats["state_art_root_" + how] = stats.get("state_art_root_" + how, 0) + 1
         c["pre_index"] = len(ops)
         c["strategy"] = rng.choice("lc")
         ops.append(("checkout", c["strategy"], False, []))
